@@ -1,12 +1,34 @@
-#!/bin/sh
-# confirm_mutant.sh <mutant-dir>: in a scratch worktree, check that with the patch the workspace builds,
-# the existing tests pass, and report. (The demonstration is run separately, it differs per mutant.)
-set -e
+#!/bin/bash
+# confirm_mutant.sh <mutant-dir>: independent confirmation in a scratch worktree:
+#  (a) with the patch the workspace builds and the existing tests pass,
+#  (b) the demonstration passes on the pristine tree and fails with the patch.
+# Writes <mutant-dir>/confirm.json.
 d=$(cd "$1" && pwd)
 wt=/tmp/confirm_wt
-git -C /repo worktree remove --force $wt 2>/dev/null || true
-git -C /repo worktree add -q $wt HEAD
-cd $wt
-git apply "$d/patch.diff"
-CARGO_TARGET_DIR=/tmp/confirm_target cargo test --workspace --no-fail-fast --offline 2>&1 | grep -E "^test result|FAILED|^error" | tr '\n' ';'
-echo
+export CARGO_TARGET_DIR=/tmp/confirm_target CARGO_NET_OFFLINE=true
+if [ ! -d $wt ]; then git -C /repo worktree add -q $wt HEAD; fi
+cd $wt && git checkout -q -- . && git clean -fdq && git reset -q --hard $(git -C /repo rev-parse HEAD)
+demo=$d/demo.rs
+if grep -q "wtransport_proto::\|use wtransport_proto" $demo && ! grep -q "wtransport::" $demo; then
+  crate=wtransport-proto; feats="--features async"
+else
+  crate=wtransport; feats="--features dangerous-configuration,quinn"
+fi
+mkdir -p $wt/$crate/tests
+run_demo() { cp $demo $wt/$crate/tests/demo.rs; timeout 900 cargo test -p $crate --offline $feats --test demo >/tmp/confirm_demo.log 2>&1; rc=$?; rm -f $wt/$crate/tests/demo.rs; return $rc; }
+run_demo; pristine_rc=$?
+git apply $d/patch.diff; apply_rc=$?
+timeout 1800 cargo test --workspace --no-fail-fast --offline >/tmp/confirm_suite.log 2>&1; suite_rc=$?
+suite=$(grep -E "^test result" /tmp/confirm_suite.log | tr '\n' ';')
+run_demo; mutant_rc=$?
+demo_tail=$(grep -E "^test .*FAILED|panicked|test result" /tmp/confirm_demo.log | head -5 | tr '\n' ';' | cut -c1-600)
+git checkout -q -- . && git clean -fdq
+python3 - "$d" "$crate" "$pristine_rc" "$apply_rc" "$suite_rc" "$mutant_rc" "$suite" "$demo_tail" <<'PY'
+import json,sys
+d,crate,p,a,s,m,suite,tail=sys.argv[1:9]
+ok = (p=="0" and a=="0" and s=="0" and m!="0")
+json.dump({"crate":crate,"demo_on_pristine_rc":int(p),"patch_applies_rc":int(a),"suite_with_patch_rc":int(s),
+           "demo_with_patch_rc":int(m),"suite_summary":suite,"demo_with_patch_tail":tail,"confirmed":ok},
+          open(d+"/confirm.json","w"),indent=1)
+print(d, "CONFIRMED" if ok else "NOT-CONFIRMED", p,a,s,m)
+PY
